@@ -674,6 +674,12 @@ def independence(c, prop, pairs, clause, names=("source", "copy"), aspects=None)
                     # the whole tree x sits in: maps are shared along attach chains
                     # (parent, siblings, their descendants), not only below x
                     side.update(c.pre.subtree(c.pre.root_of(x)))
+                # ... and whatever the operation itself has put into that side's trees (reference
+                # expansion and import attach new nodes below the ones they are given; attached
+                # with equal maps they share the map of the node they hang under)
+                for x in touched & side:
+                    if c.post.cells[x] is not None:
+                        side.update(c.post.subtree(c.post.root_of(x)))
         if oset & cset:
             continue
         if k == "add_child" and c.R["c"] in born:
